@@ -319,7 +319,9 @@ cfgLoop:
 			cfg.AddLocationFlag = true
 		case "stoprel":
 			cfg.StopTimeS = sc.AtoiPtr(key, val)
-			*cfg.StopTimeS += ms2S(nowMS)
+			if cfg.StopTimeS != nil { // nil after a conversion error
+				*cfg.StopTimeS += ms2S(nowMS)
+			}
 			cfg.AddLocationFlag = true
 		case "dur": // Adds a presentation duration for multiple periods
 			cfg.PeriodDurations = append(cfg.PeriodDurations, sc.Atoi(key, val))
